@@ -71,6 +71,10 @@ CLAIMED['C20'] = ('exploration', 'deterministic simulation: seeded RFCOMM parame
     'Seeded search over RFCOMM maximum frame size (23..32767) and initial credits (1..7) per side, L2CAP MTU, 1-3 data links, write sizes in both directions at once, closing from either end and re-opening, multiplexer shutdown; an independent frame parser on each sender boundary checks information size <= the receiver announced maximum and data frames <= credits, streams must be byte-identical and complete while there is wire activity, DLC/multiplexer states and tables must correspond after set-up and teardown. HFP: initiate_slc() completes for drawn HF/AG feature subsets, indicator, codec and call-hold sets with both sides holding the same features, indicators, codecs, call-hold set and HF indicators, the AG reporting slc_complete once; every raw AT line (all commands the HF role emits, plus variants with 0-4 extra/missing parameters) is concluded by exactly one OK / ERROR / +CME ERROR. Sampling, not proof.',
     'Trusted: the frame parser in props/c20.py; negotiated maximum per direction = receiver announced frame size; per-run data volume <= 60 KB (quick).', 'DESIGN.md §5 C20')
 
+CLAIMED['C02'] = ('exploration', 'deterministic simulation: seeded packet streams x enumerated chunkings through every framer; client cut-off at every byte position on the server transports',
+    'Seeded packet sequences of all five HCI types with boundary body lengths; for each stream every single cut (streams up to 2000 bytes) and every pair of cuts (up to 64 bytes, 300 in thorough), 1-byte chunks, one chunk and seeded k-cuts are fed to the push parser and checked after every chunk against an independent reference framer (none early, merged, late, twice or lost); the blocking reader, the asynchronous reader (chunks arriving at seeded virtual times) and the USB per-endpoint splitters must yield the same packets; an unknown type byte (last of a chunk / alone / mid-chunk) must be reported and later data framed correctly; on the TCP, UNIX and WebSocket server transports a first client is cut off at every byte position of its last packet and a second client must be framed from its first byte. Streams are sampled, chunkings within the stated bounds are enumerated.',
+    'Trusted: reference framer in props/c02.py; real sockets/websockets replaced by the simulator (protocol callbacks / fake connection objects); libusb threads not simulated (only the splitter classes).', 'DESIGN.md §5 C02')
+
 NOT_YET = {}
 
 
